@@ -18,7 +18,7 @@ LEVEL = "exploration"
 TECHNIQUE = "runtime monitoring: round-trip monitor on the real save_to_config / load_from_config (byte-identical re-save) plus behavioural equality of original and loaded object on probe inputs that are proven sensitive to the option under test"
 RULE = (
     "cases = evaluator configurations: every field varied away from its default one at a time (complete over the value lists: "
-    "input type, backend, 10 matcher settings (incl. thresholds equal to / one ulp above a probe score), handlers, 6 group definitions, metric selections, decision metric/threshold, the "
+    "input type, backend, 10 matcher settings (incl. thresholds equal to / one ulp above a probe score), handlers, 9 group definitions (incl. unordered label values beyond 255), metric selections, decision metric/threshold, the "
     "three boolean flags), all pairs of fields (two non-default values each), seeded random full combinations; each "
     "SupportsConfig component and each enum member saved on its own; the five shipped YAML files. A probe input counts for an "
     "option only if toggling that option on the original object changes the observable result on it. Non-trivial = "
@@ -65,6 +65,10 @@ FIELDS = {
         G4([([1], "single"), ([2, 3, 4], "plain")]),
         G4([([1], "plain"), ([2], "merge"), ([3], "single"), ([4], "single")]),
         G4([([4, 3], "merge"), ([2, 1], "merge")]),
+        # label values / orders for which the iteration order of a python set depends on the insertion order
+        G4([([250, 3, 101, 26, 1, 2, 4], "plain")]),
+        G4([([1, 300, 26, 282], "merge"), ([2, 3, 4, 1025, 9], "plain")]),
+        G4([([4, 1, 65537, 17, 33], "plain"), ([2, 3], "merge")]),
     ],
     "metrics": [["DSC"], ["IOU", "ASSD"], ["DSC", "IOU", "ASSD", "RVD", "clDSC"], ["RVD", "IOU"]],
     "global": [[], ["IOU"], ["DSC", "ASSD", "RVD"], ["RVD", "DSC"]],
